@@ -44,7 +44,7 @@ def one(d):
 
 
 dirs = sorted(d for d in glob.glob(ROOT + '/seeded/*') if os.path.exists(d + '/meta.json') and (not args or os.path.basename(d).startswith(tuple(args))))
-with cf.ThreadPoolExecutor(3) as ex:
+with cf.ThreadPoolExecutor(int(os.environ.get("RECHECK_PAR", "3"))) as ex:
     for d, st, m in ex.map(one, dirs):
         if st != 'skip':
             print(os.path.basename(d), st, 'caught:', m.get('caught'), 'MISSED:' if m.get('missed') else '', m.get('missed') or '')
